@@ -353,6 +353,19 @@ static std::vector<double> make_stream(vh::Rng& r, int nsamples, int width) {
             }
         }
     }
+    //runs of exact digital silence (whole frames of zeros occur once the stream is framed) and runs of one constant value
+    const int nruns = 1 + int(r.below(3));
+    for (int q = 0; q < nruns && nsamples >= 4; ++q) {
+        const int len = 1 + int(r.below(uint64_t(std::max(1, nsamples / 2))));
+        const int at = int(r.below(uint64_t(nsamples - std::min(len, nsamples - 1))));
+        const bool constant = (r.below(4) == 0);
+        const double cv = r.gauss();
+        for (int i = at; i < std::min(nsamples, at + len); ++i) {
+            for (int k = 0; k < width; ++k) {
+                s[size_t(i) * width + k] = constant ? cv : 0.0;
+            }
+        }
+    }
     return s;
 }
 
